@@ -340,23 +340,37 @@ func verifC34GenSRT(r *verifutil.Rand) string {
 	}
 }
 
+// tokens of the Link header's own syntax (RFC 8288 field lists, quoted strings, parameters), single and
+// in the adjacent combinations a careless splitter / scanner would trip over
+var verifC34LinkTokens = []string{
+	",", "<", ">", ";", "=", " ", "\t", `"`, `\`, ",<", ", <", ",  <", ",\t<", ">;", `";`, `\"`, `\\`, `",`, `">`, "><", "<>", ",,", ";;",
+	`; rel=`, `rel="ice-server"`, `>; rel="ice-server"`, `; username="`, `"; credential="`, `; credential-type="password"`,
+	`, <stun:evil>; rel="ice-server"`, "a", "cam", "1700000000:", "lobby", "x", "é",
+}
+
 func verifC34Cred(r *verifutil.Rand) string {
-	switch r.Intn(8) {
+	switch r.Intn(10) {
 	case 0:
 		return ""
-	case 1, 2, 3:
-		const hostile = "\\\"\\\";= a>"
+	case 1, 2:
+		const hostile = "\\\"\\\";= a>,<"
 		n := 1 + r.Intn(8)
 		b := make([]byte, n)
 		for i := range b {
 			b[i] = hostile[r.Intn(len(hostile))]
 		}
 		return string(b)
-	case 4:
+	case 3, 4, 5: // 1..6 syntax tokens
+		var sb strings.Builder
+		for n := 1 + r.Intn(6); n > 0; n-- {
+			sb.WriteString(verifC34LinkTokens[r.Intn(len(verifC34LinkTokens))])
+		}
+		return sb.String()
+	case 6:
 		return string(r.Bytes(1 + r.Intn(6)))
-	case 5:
+	case 7:
 		return r.Pick(`"; credential="x`, `\`, `"`, `\"`, `\\`, `\\"`, `a"; credential-type="password"`, `>; rel="ice-server"`,
-			`"; credential=""; credential-type="password"`, `x\`, `"x`)
+			`"; credential=""; credential-type="password"`, `x\`, `"x`, "abc,<def", "1700000000:cam, <lobby>", ",<", ", <")
 	default:
 		return r.Pick("myuser", "mypass", "user", "s3cr3t", "turn-user", "p@ss w0rd", "a:b")
 	}
@@ -369,6 +383,13 @@ func verifC34URL(r *verifutil.Rand) string {
 			`>>; rel="ice-server"`, `>; rel="ice-server>; rel="ice-server"`)
 	case 1:
 		return string(r.Bytes(1 + r.Intn(5)))
+	case 2: // URL over the header's syntax tokens (the round trip only excludes the separator literal)
+		var sb strings.Builder
+		sb.WriteString("turn:h")
+		for n := 1 + r.Intn(4); n > 0; n-- {
+			sb.WriteString(verifC34LinkTokens[r.Intn(len(verifC34LinkTokens))])
+		}
+		return sb.String()
 	default:
 		return r.Pick("stun:stun.l.google.com:19302", "turn:turn.example.com:3478", "turns:host:5349?transport=tcp", "stun:[::1]:3478")
 	}
